@@ -108,8 +108,9 @@ Significant(out) == SelectSeq([j \in 1..Len(out.cols) |-> j],
 
 WellFormed(out) == Len(out.names) = Len(out.cols) /\ Len(out.lens) = Len(out.cols)
 
-Clauses(g, hdr, out) ==
-  IF ~WellFormed(out) THEN {"C32.malformed"}
+\* the failed clauses, as a sequence (a concrete value: cheap to keep in the judge's state)
+Failed(g, hdr, out) ==
+  IF ~WellFormed(out) THEN <<"C32.malformed">>
   ELSE
   LET req == Required(g)
       sig == Significant(out)
@@ -131,15 +132,17 @@ Clauses(g, hdr, out) ==
       \* with headers: a kept column is named by its header cell
       Headers == hdr = 1 => \A j \in 1..both : out.names[sig[j]] = <<"h", 0, req[j]>>
   IN
-  (IF out.nt <= 1 THEN {} ELSE {"C32.tables"}) \cup
-  (IF EqualLengths THEN {} ELSE {"C32.equal"}) \cup
-  (IF OnePerRow THEN {} ELSE {"C32.rows"}) \cup
-  (IF Kept THEN {} ELSE {"C32.kept"}) \cup
-  (IF NoExtra THEN {} ELSE {"C32.extra"}) \cup
-  (IF Cells THEN {} ELSE {"C32.cell"}) \cup
-  (IF Headers THEN {} ELSE {"C32.header"})
+  (IF out.nt <= 1 THEN <<>> ELSE <<"C32.tables">>) \o
+  (IF EqualLengths THEN <<>> ELSE <<"C32.equal">>) \o
+  (IF OnePerRow THEN <<>> ELSE <<"C32.rows">>) \o
+  (IF Kept THEN <<>> ELSE <<"C32.kept">>) \o
+  (IF NoExtra THEN <<>> ELSE <<"C32.extra">>) \o
+  (IF Cells THEN <<>> ELSE <<"C32.cell">>) \o
+  (IF Headers THEN <<>> ELSE <<"C32.header">>)
 
-Ok(g, hdr, out) == Clauses(g, hdr, out) = {}
+Clauses(g, hdr, out) == LET f == Failed(g, hdr, out) IN {f[i] : i \in 1..Len(f)}
+
+Ok(g, hdr, out) == Failed(g, hdr, out) = <<>>
 
 ---------------------------------------------------------------------------
 (* Reference outputs: show that the relation is satisfiable on every grid  *)
